@@ -42,3 +42,19 @@ func (r *RPC) VerifJrpcHandler() http.Handler {
 func VerifGrpcAuth(ctx context.Context, fullMethod string) error {
 	return auth(ctx, &grpc.UnaryServerInfo{FullMethod: fullMethod})
 }
+
+// VerifResetGlobals puts the package-level access-control state (the additive
+// whitelist / blacklist maps and the configuration pointer) back to what a fresh
+// process has, so that a harness can load many configurations without paying a
+// process start for each.
+func VerifResetGlobals() {
+	grpcFuncListLock.Lock()
+	defer grpcFuncListLock.Unlock()
+	remoteIPWhitelist = make(map[string]bool)
+	jrpcFuncWhitelist = make(map[string]bool)
+	grpcFuncWhitelist = make(map[string]bool)
+	jrpcFuncBlacklist = make(map[string]bool)
+	grpcFuncBlacklist = make(map[string]bool)
+	rpcFilterPrintFuncBlacklist = make(map[string]bool)
+	rpcCfg = nil
+}
